@@ -22,8 +22,9 @@ import (
 	"verifharness/lib"
 )
 
+// Case is one record (the name is kept from the first version of this harness: one case = one record).
 type Case struct {
-	ID     int64    `json:"id"`
+	ID     int64    `json:"id,omitempty"`
 	Chan   int64    `json:"chan"`
 	Signed bool     `json:"signed"`
 	Pre    int64    `json:"pre"`
@@ -36,6 +37,17 @@ type Case struct {
 	Vals   []uint64 `json:"vals"`  // float64 bits of pretrigMean, peakValue, pulseRMS, pulseAverage, residualStdDev
 	Coefs  []uint64 `json:"coefs"` // float64 bits
 	E2E    bool     `json:"e2e,omitempty"`
+}
+
+// Batch is what one generated case is: a few records whose messages are ALL built before any of them is
+// read.  In production a built message is held (startSocket: message := converter(record) ... SendMessage)
+// while the other port's goroutine runs its converter; a message that shares memory with a later one shows
+// only when it is read after the later one has been built.
+//   Order 0: rec(A) sum(A) rec(B) sum(B) ...   1: rec(A) rec(B) ... sum(A) sum(B) ...   2: sum(A) rec(A) sum(B) rec(B) ...
+type Batch struct {
+	ID    int64  `json:"id"`
+	Order int    `json:"order"`
+	Ops   []Case `json:"ops"`
 }
 
 // ---------- value pools ----------
@@ -277,17 +289,12 @@ func corpus(tier string) []Case {
 
 func gen(seed uint64, tier string) []interface{} {
 	r := lib.NewRng(seed)
-	n := 320
+	n := 400
 	if tier == "thorough" {
 		n = 6000
 	}
-	var out []interface{}
-	id := int64(1)
-	for _, c := range corpus(tier) {
-		c.ID = id
-		id++
-		out = append(out, c)
-	}
+	var recs []Case
+	recs = append(recs, corpus(tier)...)
 	for i := 0; i < n; i++ {
 		rr := r.Fork()
 		c := genCase(rr, tier)
@@ -297,9 +304,7 @@ func gen(seed uint64, tier string) []interface{} {
 				c.Chan = subChans[rr.Intn(len(subChans))]
 			}
 		}
-		c.ID = id
-		id++
-		out = append(out, c)
+		recs = append(recs, c)
 	}
 	if tier == "thorough" {
 		// the channel/length grid and the long records of the corpus once more, end to end
@@ -311,10 +316,26 @@ func gen(seed uint64, tier string) []interface{} {
 				continue
 			}
 			c.E2E = true
-			c.ID = id
-			id++
-			out = append(out, c)
+			recs = append(recs, c)
 		}
+	}
+	// group consecutive records into batches of 2..4 (now and then 1); a long record is always followed by
+	// at least one more record in its batch
+	var out []interface{}
+	id := int64(1)
+	br := lib.NewRng(seed ^ 0xb47c)
+	for i := 0; i < len(recs); {
+		k := br.Range(2, 4)
+		if br.Chance(1, 15) && len(recs[i].Ramp) == 0 {
+			k = 1
+		}
+		if i+k > len(recs) {
+			k = len(recs) - i
+		}
+		b := Batch{ID: id, Order: br.Intn(3), Ops: append([]Case(nil), recs[i:i+k]...)}
+		id++
+		i += k
+		out = append(out, b)
 	}
 	return out
 }
@@ -486,8 +507,10 @@ func (s *session) roundtrip(v dastard.VerifRecord) (msgs [2][][]byte, filtered b
 			filtered = true
 		}
 	}
+	// both publisher goroutines get the record before anything is received, as in production
+	s.pub[0].Send(v)
+	s.pub[1].Send(v)
 	for w := 0; w < 2; w++ {
-		s.pub[w].Send(v)
 		m, err := s.all[w].RecvMessageBytes(0)
 		if err != nil {
 			s.ok = false
@@ -504,8 +527,6 @@ func (s *session) roundtrip(v dastard.VerifRecord) (msgs [2][][]byte, filtered b
 	}
 	return msgs, filtered, true
 }
-
-// ---------- running one case ----------
 
 // frameList renders frames as a Coq list of byte lists.  Coq spends ~40 us per decimal digit on numerals and its
 // parser overflows the stack on list literals of ~100 k elements, so a frame longer than 1024 bytes is written as
@@ -581,40 +602,47 @@ func classify(tags map[string]bool, bits uint64) {
 	}
 }
 
-func runCase(c Case) lib.Result {
-	one := uint16(1)
-	if *(*byte)(unsafe.Pointer(&one)) != 1 {
-		fmt.Fprintln(os.Stderr, "c14: host is not little-endian; the property's layout assumption does not hold here")
-		os.Exit(2)
-	}
-	data := c.Data
-	dataTerm := ""
+type hashed struct {
+	C      int64
+	S      bool
+	P      int64
+	D      []int
+	R      []int64
+	Pe, Vp uint32
+	T, F   int64
+	V, Co  []uint64
+	E      bool
+}
+
+type prepared struct {
+	c        Case
+	data     []int
+	dataTerm string
+	v        dastard.VerifRecord
+	recmsg   [][]byte // held exactly as returned (no copy) until every message of the batch has been built
+	summsg   [][]byte
+	e2eTag   string
+}
+
+func prepare(c Case) *prepared {
+	p := &prepared{}
+	p.data = c.Data
 	if len(c.Ramp) == 3 {
 		a, b, n := c.Ramp[0], c.Ramp[1], c.Ramp[2]
-		data = make([]int, n)
-		for i := range data {
-			data[i] = int(((a+b*int64(i))%65536 + 65536) % 65536)
+		p.data = make([]int, n)
+		for i := range p.data {
+			p.data[i] = int(((a+b*int64(i))%65536 + 65536) % 65536)
 		}
-		dataTerm = fmt.Sprintf("(ramp %s %s %s)", lib.Z(a), lib.Z(b), lib.Z(n))
+		p.dataTerm = fmt.Sprintf("(ramp %s %s %s)", lib.Z(a), lib.Z(b), lib.Z(n))
 	} else {
-		dataTerm = lib.ZListInt(data)
+		p.dataTerm = lib.ZListInt(p.data)
 	}
 	for len(c.Vals) < 5 {
 		c.Vals = append(c.Vals, 0)
 	}
-	res := lib.Result{ID: c.ID, Hash: lib.Hash(struct {
-		C      int64
-		S      bool
-		P      int64
-		D      []int
-		R      []int64
-		Pe, Vp uint32
-		T, F   int64
-		V, Co  []uint64
-	}{c.Chan, c.Signed, c.Pre, c.Data, c.Ramp, c.Period, c.Vpa, c.Time, c.Frame, c.Vals, c.Coefs})}
-
-	raw := make([]uint16, len(data))
-	for i, v := range data {
+	p.c = c
+	raw := make([]uint16, len(p.data))
+	for i, v := range p.data {
 		raw[i] = uint16(v)
 	}
 	coefs := make([]float64, len(c.Coefs))
@@ -624,67 +652,144 @@ func runCase(c Case) lib.Result {
 	if len(c.Coefs) == 0 && c.Frame&1 == 0 {
 		coefs = nil // nil and empty slices must both give an empty frame
 	}
-	v := dastard.VerifRecord{Chan: int(c.Chan), Frame: c.Frame, TimeNs: c.Time, Pre: int(c.Pre), Data: raw, Signed: c.Signed,
+	p.v = dastard.VerifRecord{Chan: int(c.Chan), Frame: c.Frame, TimeNs: c.Time, Pre: int(c.Pre), Data: raw, Signed: c.Signed,
 		PretrigMean: math.Float64frombits(c.Vals[0]), PeakValue: math.Float64frombits(c.Vals[1]),
 		PulseRMS: math.Float64frombits(c.Vals[2]), PulseAverage: math.Float64frombits(c.Vals[3]),
 		ResidualStdDev: math.Float64frombits(c.Vals[4]),
 		PretrigDelta:   12345.678, // not part of either message
 		ModelCoefs:     coefs,
 		VoltsPerArb:    math.Float32frombits(c.Vpa), SampPeriod: math.Float32frombits(c.Period)}
+	return p
+}
 
-	var recmsg, summsg [][]byte
-	var ob obsv
+func runBatch(b Batch) lib.Result {
+	one := uint16(1)
+	if *(*byte)(unsafe.Pointer(&one)) != 1 {
+		fmt.Fprintln(os.Stderr, "c14: host is not little-endian; the property's layout assumption does not hold here")
+		os.Exit(2)
+	}
+	res := lib.Result{ID: b.ID}
+	ps := make([]*prepared, len(b.Ops))
+	var hs []hashed
+	for i, c := range b.Ops {
+		ps[i] = prepare(c)
+		c = ps[i].c
+		hs = append(hs, hashed{c.Chan, c.Signed, c.Pre, c.Data, c.Ramp, c.Period, c.Vpa, c.Time, c.Frame, c.Vals, c.Coefs, c.E2E})
+	}
+	res.Hash = lib.Hash(struct {
+		O int
+		H []hashed
+	}{b.Order, hs})
+
+	// phase 1: build every message of the batch; the returned frames are kept as they are (not copied)
+	panicMsg := ""
 	func() {
 		defer func() {
 			if e := recover(); e != nil {
-				ob.Panic = fmt.Sprint(e)
+				panicMsg = fmt.Sprint(e)
 			}
 		}()
-		recmsg = copyFrames(dastard.VerifMessageRecord(v))
-		summsg = copyFrames(dastard.VerifMessageSummary(v))
+		switch b.Order {
+		case 1:
+			for _, p := range ps {
+				p.recmsg = dastard.VerifMessageRecord(p.v)
+			}
+			for _, p := range ps {
+				p.summsg = dastard.VerifMessageSummary(p.v)
+			}
+		case 2:
+			for _, p := range ps {
+				p.summsg = dastard.VerifMessageSummary(p.v)
+				p.recmsg = dastard.VerifMessageRecord(p.v)
+			}
+		default:
+			for _, p := range ps {
+				p.recmsg = dastard.VerifMessageRecord(p.v)
+				p.summsg = dastard.VerifMessageSummary(p.v)
+			}
+		}
 	}()
-	e2eTag := ""
-	if c.E2E && ob.Panic == "" {
-		if s := getSession(); s == nil || !s.ok {
-			e2eTag = "e2e-unavailable(direct call used)"
-		} else if msgs, filtered, ok := s.roundtrip(v); !ok {
-			e2eTag = "e2e-receive-timeout(direct call used)"
-		} else {
-			recmsg, summsg = msgs[0], msgs[1]
-			e2eTag = "e2e-received-by-unfiltered-SUB"
-			if filtered {
-				e2eTag = "e2e-received-by-prefix-subscribed-SUB"
+	// phase 1b (thorough tier): the flagged records also travel through the real PUB sockets; what the SUB
+	// sockets received replaces the directly built frames of that record
+	for _, p := range ps {
+		if p.c.E2E && panicMsg == "" {
+			if s := getSession(); s == nil || !s.ok {
+				p.e2eTag = "e2e-unavailable(direct call used)"
+			} else if msgs, filtered, ok := s.roundtrip(p.v); !ok {
+				p.e2eTag = "e2e-receive-timeout(direct call used)"
+			} else {
+				p.recmsg, p.summsg = msgs[0], msgs[1]
+				p.e2eTag = "e2e-received-by-unfiltered-SUB"
+				if filtered {
+					p.e2eTag = "e2e-received-by-prefix-subscribed-SUB"
+				}
 			}
 		}
 	}
-	for _, f := range recmsg {
-		ob.RecFrames = append(ob.RecFrames, len(f))
-	}
-	for _, f := range summsg {
-		ob.SumFrames = append(ob.SumFrames, len(f))
-	}
-	if len(recmsg) > 0 {
-		ob.RecHeader = fmt.Sprintf("%x", recmsg[0])
-	}
-	if len(summsg) > 0 {
-		ob.SumHeader = fmt.Sprintf("%x", summsg[0])
-	}
 
-	var f32 [5]uint32
-	for i := range f32 {
-		f32[i] = f32bitsOf64(c.Vals[i])
-	}
-	coefTerms := make([]string, len(c.Coefs))
-	for i, b := range c.Coefs {
-		coefTerms[i] = lib.ZU(b)
-	}
-	res.Term = fmt.Sprintf("mk %s %s %s %s %d %d %s %s %d %d %d %d %d [%s] %s %s",
-		lib.Z(c.Chan), lib.B(c.Signed), lib.Z(c.Pre), dataTerm, c.Period, c.Vpa, lib.Z(c.Time), lib.Z(c.Frame),
-		f32[0], f32[1], f32[2], f32[3], f32[4], joinSemi(coefTerms), frameList(recmsg), frameList(summsg))
-	res.Impl = ob
-
-	// tags: input features
+	// phase 2: only now are the held messages read
+	var obs []obsv
+	var terms []string
 	tags := map[string]bool{}
+	nontrivial := false
+	for _, p := range ps {
+		c := p.c
+		var ob obsv
+		ob.Panic = panicMsg
+		for _, f := range p.recmsg {
+			ob.RecFrames = append(ob.RecFrames, len(f))
+		}
+		for _, f := range p.summsg {
+			ob.SumFrames = append(ob.SumFrames, len(f))
+		}
+		if len(p.recmsg) > 0 {
+			ob.RecHeader = fmt.Sprintf("%x", p.recmsg[0])
+		}
+		if len(p.summsg) > 0 {
+			ob.SumHeader = fmt.Sprintf("%x", p.summsg[0])
+		}
+		obs = append(obs, ob)
+		var f32 [5]uint32
+		for i := range f32 {
+			f32[i] = f32bitsOf64(c.Vals[i])
+		}
+		coefTerms := make([]string, len(c.Coefs))
+		for i, x := range c.Coefs {
+			coefTerms[i] = lib.ZU(x)
+		}
+		terms = append(terms, fmt.Sprintf("mk %s %s %s %s %d %d %s %s %d %d %d %d %d [%s] %s %s",
+			lib.Z(c.Chan), lib.B(c.Signed), lib.Z(c.Pre), p.dataTerm, c.Period, c.Vpa, lib.Z(c.Time), lib.Z(c.Frame),
+			f32[0], f32[1], f32[2], f32[3], f32[4], joinSemi(coefTerms), frameList(p.recmsg), frameList(p.summsg)))
+		if recordTags(tags, c, p.data) {
+			nontrivial = true
+		}
+		if p.e2eTag != "" {
+			tags[p.e2eTag] = true
+		}
+	}
+	res.Term = lib.List(terms)
+	res.Impl = obs
+	if panicMsg != "" {
+		tags["panic"] = true
+	}
+	switch {
+	case len(ps) <= 1:
+		tags[fmt.Sprintf("batch-of-%d", len(ps))] = true
+	default:
+		tags["batch-of-2..4"] = true
+		tags[fmt.Sprintf("build-order-%d", b.Order)] = true
+	}
+	res.NonTrivial = nontrivial && len(ps) >= 2
+	for t := range tags {
+		res.Tags = append(res.Tags, t)
+	}
+	sort.Strings(res.Tags)
+	return res
+}
+
+// recordTags adds the input features of one record; it returns whether the record is in the property's
+// domain and has at least one sample and one coefficient.
+func recordTags(tags map[string]bool, c Case, data []int) bool {
 	inDomain := c.Chan >= 0 && c.Chan < 65536 && c.Pre >= 0 && c.Pre < 1<<32
 	if !inDomain {
 		tags["outside-domain(channel or presamples do not fit the field)"] = true
@@ -755,18 +860,7 @@ func runCase(c Case) lib.Result {
 	default:
 		tags["coefs-16..64"] = true
 	}
-	if ob.Panic != "" {
-		tags["panic"] = true
-	}
-	if e2eTag != "" {
-		tags[e2eTag] = true
-	}
-	res.NonTrivial = inDomain && len(data) > 0 && len(c.Coefs) > 0
-	for t := range tags {
-		res.Tags = append(res.Tags, t)
-	}
-	sort.Strings(res.Tags)
-	return res
+	return inDomain && len(data) > 0 && len(c.Coefs) > 0
 }
 
 func joinSemi(xs []string) string {
@@ -784,15 +878,15 @@ func main() {
 	h := lib.Harness{
 		Gen: gen,
 		RunCase: func(raw json.RawMessage) (lib.Result, error) {
-			var c Case
-			if err := json.Unmarshal(raw, &c); err != nil {
+			var b Batch
+			if err := json.Unmarshal(raw, &b); err != nil {
 				return lib.Result{}, err
 			}
-			return runCase(c), nil
+			return runBatch(b), nil
 		},
 		Header:   "From Dastard Require Import Common.ZX Common.CaseLib C14.Model C14.Run.",
 		Verdict:  "verdict",
-		PerShard: 60,
+		PerShard: 25,
 	}
 	h.Main()
 }
